@@ -5,6 +5,7 @@ go 1.24
 toolchain go1.24.0
 
 require (
+	github.com/eclipse/paho.mqtt.golang v1.5.0
 	github.com/emitter-io/config v1.0.0
 	github.com/emitter-io/emitter v0.0.0
 	github.com/kelindar/binary v1.0.19
